@@ -90,6 +90,17 @@ Definition check_storage_list_all (keys : list bytes) (raw : bytes) (t : tree) :
     vplib.s3stub.norm_prefix) *)
 Definition stored_prefix_is (raw expected : bytes) : bool := bytes_eqb (client_prefix raw) expected.
 
+(** purge_object on the observed bucket: result class, the DELETE requests in order, the
+    bucket afterwards (keys with content tokens) *)
+Definition check_purge (raw root : bytes) (bk : bucket) (obs_class : N) (obs_deleted : list bytes)
+           (obs_bucket : bucket) : bool :=
+  let out := purge_object None (client_prefix raw) root (init_st bk) in
+  (match fst out with Ok _ => 0 | Err => 1 | Panic => 2 end =? obs_class) &&
+  list_eqb bytes_eqb (map (fun r => match r with RDelete k => k | _ => [] end) (st_log (snd out))) obs_deleted &&
+  pairs_set_eqb (st_b (snd out)) obs_bucket.
+
+Definition known_c15_root (existing : list bytes) (root : bytes) : bool := c15_s3_object_root_unchecked existing root.
+
 (* ---- C16 *)
 
 Definition req_eqb (a c : req) : bool :=
